@@ -36,6 +36,13 @@ var c05Extra = []c05Entry{
 	{`$greet(a)`, true}, {`a = "xAz" ? $big := n : $big`, true}, {`$q := s`, false}, {`[$exists($q), $q := a]`, false},
 	{`$fromMillis(0, "[H01]:[m01]", "+0845")`, false}, {`$fromMillis(0, "[H01]:[m01]", "-0845")`, false}, {`$formatNumber(n[0], "#,##0.00")`, false},
 	{`$toMillis($fromMillis(86400000))`, false}, {`$reverse(n)`, false}, {`$sort(n)`, false}, {`$distinct(n)`, false}, {`$append(n, n)`, false},
+	// built-ins with optional arguments, called with and without them on data both forms accept
+	{`$toMillis("2017-10-30T16:25:32+01:00")`, false}, {`$toMillis("30/10/2017", "[D01]/[M01]/[Y]")`, false}, {`$toMillis("2018-03-04")`, false},
+	{`$toMillis("2018-03-04", "[Y]-[D01]-[M01]")`, false}, {`$fromMillis(1509377132000)`, false}, {`$fromMillis(1509377132000, "[Y]/[M01]")`, false},
+	{`$round(n[0] / 3, 2)`, false}, {`$round(n[0] / 3)`, false}, {`$join(s.$split(" "))`, false}, {`$join(s.$split(" "), "-")`, false},
+	{`$formatBase(n[0] + 7)`, false}, {`$formatBase(n[0] + 7, 2)`, false}, {`$substring(s, 1)`, false}, {`$substring(s, 1, 2)`, false},
+	{`$string(o[0])`, false}, {`$string(o[0], true)`, false}, {`$formatNumber(n[0] / 3, "0.0", {"decimal-separator": ","})`, false}, {`$formatNumber(n[0] / 3, "0,0")`, false},
+	{`$split(s, "o", 1)`, false}, {`$sort(n, function($l, $r){$l < $r})`, false}, {`$reduce(n, function($a, $b){$a + $b}, 100)`, false}, {`$reduce(n, function($a, $b){$a + $b})`, false},
 }
 
 var c05PoolOnce sync.Once
@@ -158,7 +165,7 @@ func c05LoadSolo() {
 	if c05Solo != nil {
 		return
 	}
-	f, err := os.Open(c05SoloPath("/verif"))
+	f, err := os.Open(c05SoloPath(verifRoot()))
 	if err != nil {
 		panic("c05: solo table missing: " + err.Error())
 	}
@@ -426,6 +433,12 @@ func c05E3(env *explore.Env, res *explore.Result) {
 	init0 := &state{}
 	frontier = append(frontier, init0)
 	for len(frontier) > 0 {
+		if len(res.Violations) >= 25 {
+			// enough counterexamples on record: do not spend the budget enumerating the rest of a broken state space
+			res.Exhaustive = false
+			res.CapHit = "e3 search stopped after 25 violations"
+			break
+		}
 		s := frontier[0]
 		frontier = frontier[1:]
 		expand(s)
@@ -521,4 +534,12 @@ func init() {
 		},
 	})
 	_ = sort.Strings
+}
+
+// verifRoot is the root of the verification tree (worker processes inherit it from run.sh).
+func verifRoot() string {
+	if r := os.Getenv("VERIF_ROOT"); r != "" {
+		return r
+	}
+	return "/verif"
 }
